@@ -104,7 +104,7 @@ PROPS = {
             ("C20.v", r"queries_transparent|inv_lower|inv_upper"), ("Refine.v", r"reads_pure|quantile_pure|copy")],
     "C15": [("C04dense.v", r"inv_clear|clear_like_new"), ("C04pag.v", r"clear"), ("C05.v", r"clear"), ("C04sparse.v", r"clear"), ("Refine.v", r"clear")],
     "C16": [("Sketch.v", r"^C16_"), ("C04dense.v", r"reweight"), ("C04pag.v", r"reweight"), ("LayerA.v", r"^A5_|bscale"), ("C05.v", r"reweight"), ("Refine.v", r"reweight"), ("C10.v", r"^reweight_"), ("Misc.v", r"^C16_f_|^GRID_")],
-    "C17": [("ChangeMapping.v", r"."), ("ChangeMappingF.v", r"."), ("ChangeMappingQ.v", r"."), ("C10.v", r"^rescale_"), ("Misc.v", r"^C17_f_")],
+    "C17": [("ChangeMapping.v", r"."), ("ChangeMappingF.v", r"."), ("ChangeMappingQ.v", r"."), ("ChangeMappingW.v", r"."), ("C10.v", r"^rescale_"), ("Misc.v", r"^C17_f_")],
     "C18": [("C18.v", r"."), ("C18grid.v", r".")],
     "C19": [("C19real.v", r"."), ("C19.v", r"."), ("Glue.v", r"build_float64|decompose|f_of_int"), ("Bridge.v", r"Bridge_with_.*rebuild|Bridge_with_gamma_fields|Bridge_with_accuracy_is")],
     "C20": [("C20.v", r"."), ("Instance.v", r"^I_C20_"), ("Sketch3.v", r"^C20_|^I_C20_"), ("C20sum.v", r"^C20_sum_")],
